@@ -630,3 +630,101 @@ Proof.
   unfold len, HeadLength in L4. rewrite firstn_length in L4. rewrite !skipn_length.
   change (Z.to_nat HeadLength) with 4%nat. lia.
 Qed.
+
+(* ---------------------------------------------------------------- WebSocket framing *)
+Lemma firstn_hdr_enc p : firstn (Z.to_nat HeadLength) (enc_bytes p) = hdr (fst p) (len (snd p)).
+Proof. unfold enc_bytes, hdr. reflexivity. Qed.
+
+Lemma len_enc_bytes p : len (enc_bytes p) = HeadLength + len (snd p).
+Proof. unfold enc_bytes. rewrite len_app, len_hdr. reflexivity. Qed.
+
+Lemma ws_next_enc p : valid_pkt p -> ws_next (enc_bytes p) = WOk.
+Proof.
+  intros [Ht Hl]. unfold ws_next. pose proof (len_nonneg (snd p)) as Ld.
+  rewrite len_enc_bytes. destruct (Z.ltb_spec (HeadLength + len (snd p)) HeadLength); [lia|].
+  rewrite firstn_hdr_enc. rewrite parse_header_hdr by (assumption || lia).
+  replace (HeadLength + len (snd p) - HeadLength) with (len (snd p)) by lia.
+  destruct (Z.ltb_spec (len (snd p)) (len (snd p))); [lia|].
+  destruct (Z.gtb_spec (len (snd p)) (len (snd p))); [lia|reflexivity].
+Qed.
+
+Lemma ws_frames_app_ok ms : forall rest, Forall (fun m => ws_next m = WOk) ms ->
+  ws_frames (ms ++ rest) = (ms ++ fst (ws_frames rest), snd (ws_frames rest)).
+Proof.
+  induction ms as [|m ms IH]; intros rest H; cbn [app ws_frames].
+  - destruct (ws_frames rest); reflexivity.
+  - inversion H as [|x y Hm Hr]; subst. rewrite Hm. rewrite IH by assumption. reflexivity.
+Qed.
+
+Lemma ws_frames_stream ps : Forall valid_pkt ps ->
+  ws_frames (map enc_bytes ps) = (map enc_bytes ps, None).
+Proof.
+  intro H. rewrite <- (app_nil_r (map enc_bytes ps)) at 1. rewrite ws_frames_app_ok.
+  - cbn [ws_frames fst snd]. rewrite app_nil_r. reflexivity.
+  - apply Forall_map. eapply Forall_impl; [|exact H]. intros p Hp. apply ws_next_enc; exact Hp.
+Qed.
+
+(* the first refused message ends the connection's input, with that message's verdict *)
+Lemma ws_frames_refused ps bad rest w : Forall valid_pkt ps -> ws_next bad = w -> w <> WOk ->
+  ws_frames (map enc_bytes ps ++ bad :: rest) = (map enc_bytes ps, Some w).
+Proof.
+  intros H Hb Hw. rewrite ws_frames_app_ok.
+  - cbn [ws_frames]. rewrite Hb. destruct w; try contradiction; cbn [fst snd]; rewrite app_nil_r; reflexivity.
+  - apply Forall_map. eapply Forall_impl; [|exact H]. intros p Hp. apply ws_next_enc; exact Hp.
+Qed.
+
+Lemma ws_next_total m : ws_next m <> WBad EFuel.
+Proof.
+  unfold ws_next. destruct (len m <? HeadLength); [discriminate|].
+  pose proof (parse_header_total (firstn (Z.to_nat HeadLength) m)) as NP.
+  pose proof (parse_header_nofuel (firstn (Z.to_nat HeadLength) m)) as NF.
+  destruct (parse_header _) as [[size ty]|e|]; [| |contradiction].
+  - destruct (_ <? size); [discriminate|]. destruct (_ >? size); discriminate.
+  - intro H. apply NF. injection H as ->. reflexivity.
+Qed.
+
+(* a 4-byte header that parses is the encoding of its type and size *)
+Lemma parse_header_inv h size t : bytes h -> parse_header h = Ok (size, t) ->
+  h = hdr t size /\ pkt_type_ok t = true /\ 0 <= size < MaxPacketSize.
+Proof.
+  intros Hb. unfold parse_header.
+  destruct (Z.eqb_spec (len h) HeadLength) as [E|E]; [|discriminate]. cbn [negb].
+  destruct h as [|a [|b [|c [|d [|x r]]]]]; unfold len, HeadLength in E; cbn [length] in E; try lia.
+  change (idx [a; b; c; d] 0) with (Ok a). cbn [bind].
+  destruct (pkt_type_ok a) eqn:Ta; cbn [negb]; [|discriminate].
+  rewrite slice_ok by (unfold len; cbn [length]; lia). cbn [bind].
+  change (Z.to_nat 1) with 1%nat. cbn [skipn].
+  replace (Z.to_nat (len [a; b; c; d] - 1)) with 3%nat by (unfold len; cbn [length]; lia).
+  cbn [firstn bytes_to_int fold_left].
+  unfold bytes in Hb. inversion Hb as [|? ? _ Hb1]; subst. inversion Hb1 as [|? ? Bb Hb2]; subst.
+  inversion Hb2 as [|? ? Bc Hb3]; subst. inversion Hb3 as [|? ? Bd _]; subst.
+  unfold byte in *. unfold MaxPacketSize.
+  destruct (Z.gtb_spec (((0 * 256 + b) * 256 + c) * 256 + d) 16777216) as [G|G]; [discriminate|].
+  intro Hq. injection Hq as <- <-. split; [|split; [exact Ta|lia]].
+  unfold hdr. f_equal. f_equal; [lia|]. f_equal; [lia|]. f_equal. lia.
+Qed.
+
+(* every message WSConn.GetNextMessage hands up is exactly one well-formed packet *)
+Lemma ws_next_ok_inv m : bytes m -> ws_next m = WOk ->
+  exists p, valid_pkt p /\ m = enc_bytes p /\ decode_pkts m = Ok [p].
+Proof.
+  intros Hb. unfold ws_next. destruct (Z.ltb_spec (len m) HeadLength) as [L|L]; [discriminate|].
+  destruct (parse_header _) as [[size ty]|e|] eqn:Eh; try discriminate.
+  apply parse_header_inv in Eh; [|apply bytes_firstn; exact Hb].
+  destruct Eh as [Eh [Ty Sz]].
+  destruct (Z.ltb_spec (len m - HeadLength) size); [discriminate|].
+  destruct (Z.gtb_spec (len m - HeadLength) size); [discriminate|]. intros _.
+  exists (ty, skipn (Z.to_nat HeadLength) m).
+  assert (Ls : len (skipn (Z.to_nat HeadLength) m) = size).
+  { rewrite len_skipn by (unfold HeadLength in *; lia). lia. }
+  assert (V : valid_pkt (ty, skipn (Z.to_nat HeadLength) m)).
+  { split; cbn [fst snd]; [exact Ty | lia]. }
+  assert (Em : m = enc_bytes (ty, skipn (Z.to_nat HeadLength) m)).
+  { unfold enc_bytes. cbn [fst snd]. rewrite Ls, <- Eh. symmetry. apply firstn_skipn. }
+  split; [exact V|]. split; [exact Em|].
+  rewrite Em at 1.
+  pose proof (pkt_stream_roundtrip [(ty, skipn (Z.to_nat HeadLength) m)] []) as R.
+  cbn [stream map concat] in R. rewrite !app_nil_r in R. apply R.
+  - constructor; [exact V | constructor].
+  - left. unfold len, HeadLength. cbn [length]. lia.
+Qed.
